@@ -12,7 +12,7 @@ use crate::{
         definitions::{InMemoryLmsPublicKey, LmsPublicKey},
         signing::{InMemoryLmsSignature, LmsSignature},
     },
-    util::helper::read_and_advance,
+    util::helper::try_read_and_advance,
     HashChain,
 };
 
@@ -145,10 +145,15 @@ impl<'a, H: HashChain> InMemoryHssSignature<'a, H> {
     pub fn new(data: &'a [u8]) -> Option<Self> {
         let mut index = 0;
 
-        let level =
-            u32::from_be_bytes(read_and_advance(data, 4, &mut index).try_into().unwrap()) as usize;
+        let level = u32::from_be_bytes(try_read_and_advance(data, 4, &mut index)?.try_into().ok()?)
+            as usize;
 
         let mut signed_public_keys = ArrayVec::new();
+
+        // A signature carries at most one signed public key per level below the top level.
+        if level > signed_public_keys.capacity() {
+            return None;
+        }
 
         for _ in 0..level {
             let signed_public_key = InMemoryHssSignedPublicKey::<'a, H>::new(&data[index..])?;
@@ -216,7 +221,7 @@ impl<'a, H: HashChain> InMemoryHssSignedPublicKey<'a, H> {
             sig.lms_parameter.get_tree_height() as usize,
         );
 
-        let public_key = InMemoryLmsPublicKey::new(&data[sig_size..])?;
+        let public_key = InMemoryLmsPublicKey::new(data.get(sig_size..)?)?;
 
         Some(Self { sig, public_key })
     }
